@@ -131,7 +131,8 @@ fn eval(dir: &Path, c: &Case) -> Verdict {
     if dest.first() == Some(&b'-') {
         return bad("option-injection", format!("destination argument {:?} would be read as an option by the ssh program", B::new(dest)));
     }
-    if *dest != want_dest.as_bytes() {
+    // an empty user name carries no information: `@host` and `host` are both fine as long as the argument cannot be an option
+    if *dest != want_dest.as_bytes() && !(url.user() == Some("") && Some(*dest) == url.host().map(str::as_bytes)) {
         return bad("destination", format!("destination argument {:?}, expected {want_dest:?}", B::new(dest)));
     }
     if path_dash {
@@ -163,6 +164,83 @@ fn eval(dir: &Path, c: &Case) -> Verdict {
     ok(format!("spawned-kind{}-{}{}", c.kind, if special { "special" } else { "plain" }, if dash(url.host()) { "-dashhost" } else { "" }))
 }
 
+/// The argument vector of `ProgramKind::prepare_invocation()` (through the verif hook), without spawning anything.
+fn eval_invocation(c: &Case) -> Verdict {
+    use std::os::unix::ffi::OsStrExt;
+    let url = match gix_url::parse(c.url.as_bstr()) {
+        Ok(u) => u,
+        Err(_) => return ok_trivial("unparsable"),
+    };
+    if url.scheme != gix_url::Scheme::Ssh || url.host().is_none() {
+        return ok_trivial("not-ssh"); // ssh::connect() refuses these before an invocation is prepared
+    }
+    let kind = [ssh::ProgramKind::Ssh, ssh::ProgramKind::Plink, ssh::ProgramKind::Putty, ssh::ProgramKind::TortoisePlink, ssh::ProgramKind::Simple][c.kind as usize % 5];
+    let dash = |s: Option<&str>| s.map_or(false, |s| s.starts_with('-'));
+    let prep = match kind.verif_prepare_invocation(std::ffi::OsStr::new("/nonexistent/ssh-program"), &url, if c.v1 { Protocol::V1 } else { Protocol::V2 }, c.disallow_shell) {
+        Ok(p) => p,
+        Err(e) => {
+            let legit = dash(url.user()) || (dash(url.host()) && url.user().is_none()) || (kind == ssh::ProgramKind::Simple && url.port.is_some());
+            return if legit {
+                ok(format!("inv-refused-{}", if dash(url.user()) { "user" } else if dash(url.host()) { "host" } else { "port" }))
+            } else {
+                bad("refused", format!("harmless URL refused: {e}"))
+            };
+        }
+    };
+    if prep.command.as_bytes() != b"/nonexistent/ssh-program" {
+        return bad("command", format!("program to run became {:?}", prep.command));
+    }
+    let args: Vec<&[u8]> = prep.args.iter().map(|a| a.as_bytes()).collect();
+    let show = || format!("{:?}", args.iter().map(|a| B::new(a)).collect::<Vec<_>>());
+    let digits = |b: &[u8]| !b.is_empty() && b.iter().all(u8::is_ascii_digit);
+    let mut i = 0;
+    while i < args.len() {
+        let a = args[i];
+        let fixed = match kind {
+            ssh::ProgramKind::Ssh => a == b"-o" || a == b"SendEnv=GIT_PROTOCOL" || (a.starts_with(b"-p") && digits(&a[2..])),
+            ssh::ProgramKind::Simple => false,
+            _ => a == b"-batch" || a == b"-P" || (i > 0 && args[i - 1] == b"-P" && digits(a)),
+        };
+        if !fixed {
+            break;
+        }
+        i += 1;
+    }
+    let want_dest = match (url.user(), url.host()) {
+        (Some(u), Some(h)) => format!("{u}@{h}"),
+        (None, Some(h)) => h.to_string(),
+        _ => return bad("no-host", "unreachable"),
+    };
+    if i + 1 != args.len() {
+        return bad("args", format!("expected the kind's own options followed by exactly one destination, got {}", show()));
+    }
+    let dest = args[i];
+    if dest.first() == Some(&b'-') {
+        return bad("option-injection", format!("destination argument {:?} would be read as an option by the ssh program (all args {})", B::new(dest), show()));
+    }
+    if dest != want_dest.as_bytes() && !(url.user() == Some("") && Some(dest) == url.host().map(str::as_bytes)) {
+        return bad("destination", format!("destination argument {:?}, expected {want_dest:?}", B::new(dest)));
+    }
+    // the port must be the URL's port
+    if let Some(port) = url.port {
+        let p = port.to_string();
+        let found = args[..i].iter().any(|a| *a == p.as_bytes() || (a.starts_with(b"-p") && &a[2..] == p.as_bytes()));
+        if !found {
+            return bad("port", format!("port {port} not among {}", show()));
+        }
+    }
+    ok(format!(
+        "inv-kind{}{}{}",
+        c.kind,
+        if dash(url.host()) { "-dashhost" } else { "" },
+        match url.user() {
+            Some("") => "-emptyuser",
+            Some(_) => "-user",
+            None => "",
+        }
+    ))
+}
+
 #[derive(Serialize, Deserialize, Hash, Clone, Debug)]
 struct LocalCase {
     path: B,
@@ -170,7 +248,8 @@ struct LocalCase {
 
 pub fn run(run: &'static Run) {
     let quick = run.quick();
-    let users: Vec<&str> = vec!["", "u@", "-u@", "-oProxyCommand=x@"];
+    // indexes 4.. : userinfo variants with empty user and/or password (`:pw@` is the only way to get user == Some(""))
+    let users: Vec<&str> = vec!["", "u@", "-u@", "-oProxyCommand=x@", ":pw@", ":@", "@", "u:@", "u:pw@", ":-pw@"];
     let hosts: Vec<&str> = vec!["h", "-h", "-oProxyCommand=x", "-F/x"];
     let ports: Vec<&str> = vec!["", ":22"];
     let mut paths: Vec<&str> = vec![
@@ -185,6 +264,7 @@ pub fn run(run: &'static Run) {
     run.rule(format!(
         "urls: {{ssh://[user@]host[:port]/path, [user@]host:path}} with user {users:?} x host {hosts:?} x port {ports:?} x path {paths:?} x program kind {{ssh,plink,putty,tortoiseplink,simple}} (quick: full grid for ssh without port, one path for the other kinds; thorough: full grid, ssh kind also with protocol v1 and with the shell wrapper disallowed); \
          each accepted URL is connected with a recording program in place of ssh and the handshake is started, so the real argument vector is observed; the recording program joins the words after the destination with a blank and lets /bin/sh split them like a remote login shell would. \
+         invocation: ProgramKind::prepare_invocation called directly (verif hook, nothing spawned) for userinfo {users:?} x 9 hosts x ports {{none,22,0,65535}} x 5 kinds x v1/v2 x shell allowed/disallowed x both URL forms: own options, then exactly one destination == [user@]host that does not start with '-'; \
          local transport: the same paths through client::file::connect with a recording git-upload-pack first in PATH. \
          non-trivial = a program was spawned and every argument was accounted for, or the URL was refused for a leading '-'"
     ));
@@ -208,15 +288,27 @@ pub fn run(run: &'static Run) {
                             for port in &ports {
                                 for (pi, path) in paths.iter().enumerate() {
                                     if quick {
-                                        // quick: ssh kind with users {none,u,-u} x hosts {h,-h} x all paths, no port; other kinds: first path, both ports
-                                        let keep = if kind == 0 { ui < 3 && hi < 2 && port.is_empty() } else { ui < 2 && hi < 2 && pi == 0 };
+                                        // quick: ssh kind with users {none,u,-u} x hosts {h,-h} x all paths, no port; other kinds: first path, both ports; userinfo variants: all kinds
+                                        let keep = if ui >= 4 {
+                                            // userinfo variants: every kind, hosts {h,-h,-oProxyCommand=x}, first path
+                                            ui < 8 && hi < 3 && pi == 0 && port.is_empty()
+                                        } else if kind == 0 {
+                                            ui < 3 && hi < 2 && port.is_empty()
+                                        } else {
+                                            ui < 2 && hi < 2 && pi == 0
+                                        };
                                         if !keep {
                                             continue;
                                         }
                                     }
+                                    // thorough: the userinfo variants do not interact with the path: four paths for them
+                                    if !quick && ui >= 4 && pi >= 4 {
+                                        continue;
+                                    }
                                     let sep = if path.starts_with('/') { "" } else { "/" };
                                     emit(Case { url: B::new(format!("ssh://{user}{host}{port}{sep}{path}").as_bytes()), kind, v1, disallow_shell });
-                                    if port.is_empty() {
+                                    // (the scp-like form cannot carry a password: not repeated for the userinfo variants in quick)
+                                    if port.is_empty() && !(quick && ui >= 4) {
                                         emit(Case { url: B::new(format!("{user}{host}:{path}").as_bytes()), kind, v1, disallow_shell });
                                     }
                                 }
@@ -228,6 +320,31 @@ pub fn run(run: &'static Run) {
         },
         |c: &Case| eval(&dirp, c),
     );
+    // ---- prepare_invocation directly (verif hook): full userinfo x host x port grid for every kind, nothing is spawned ----
+    run.sub(
+        "invocation",
+        |emit| {
+            let more_hosts = ["h", "-h", "-oProxyCommand=x", "-F/x", "--", "-", "h-", "@h", "-o@x"];
+            for kind in 0..5u8 {
+                for v1 in [false, true] {
+                    for disallow_shell in [false, true] {
+                        for user in &users {
+                            for host in &more_hosts {
+                                for port in ["", ":22", ":0", ":65535"] {
+                                    emit(Case { url: B::new(format!("ssh://{user}{host}{port}/p").as_bytes()), kind, v1, disallow_shell });
+                                    if port.is_empty() {
+                                        emit(Case { url: B::new(format!("{user}{host}:p").as_bytes()), kind, v1, disallow_shell });
+                                    }
+                                }
+                            }
+                        }
+                    }
+                }
+            }
+        },
+        eval_invocation,
+    );
+    run.require("an empty user name in front of a dash-leading host was explored", run.outcome_count("inv-kind0-dashhost-emptyuser") > 0 && run.outcome_count("inv-kind4-dashhost-emptyuser") > 0);
     run.require("paths with shell metacharacters reached the recording program", run.outcome_count("spawned-kind0-special") > 0);
     run.require("leading-dash users/hosts/paths were refused", run.outcome_count("refused-user") > 0 && run.outcome_count("refused-host") > 0 && run.outcome_count("refused-path") > 0);
 
